@@ -62,6 +62,7 @@ const (
 	sUseUnassigned  = "skew:use-unassigned-is-word-joiner"
 	sOpBudget       = "unspecified:operation-budget-exhausted"
 	sAATRanges      = "skew:aat-feature-ranges"
+	sPairClass0     = "skew:pairpos2-second-class-zero"
 	lBitmapOnly     = "loader:bitmap-only-extents"
 )
 
@@ -219,6 +220,18 @@ var useScripts = map[language.Script]bool{
 	language.Makasar: true, language.Medefaidrin: true, language.Old_Sogdian: true, language.Sogdian: true, language.Elymaic: true,
 	language.Nandinagari: true, language.Nyiakeng_Puachue_Hmong: true, language.Wancho: true, language.Chorasmian: true, language.Dives_Akuru: true,
 	language.Khitan_Small_Script: true, language.Yezidi: true,
+}
+
+// defaultIgnorable: Default_Ignorable_Code_Point as the shapers use it.
+func defaultIgnorable(r rune) bool {
+	switch {
+	case r == 0x00AD, r == 0x034F, r == 0x061C, r >= 0x115F && r <= 0x1160, r >= 0x17B4 && r <= 0x17B5, r >= 0x180B && r <= 0x180F,
+		r >= 0x200B && r <= 0x200F, r >= 0x202A && r <= 0x202E, r >= 0x2060 && r <= 0x206F, r == 0x3164, r >= 0xFE00 && r <= 0xFE0F,
+		r == 0xFEFF, r == 0xFFA0, r >= 0xFFF0 && r <= 0xFFF8, r >= 0x1BCA0 && r <= 0x1BCA3, r >= 0x1D173 && r <= 0x1D17A,
+		r >= 0xE0000 && r <= 0xE0FFF:
+		return true
+	}
+	return false
 }
 
 var mcmBelow = map[rune]bool{0x0655: true, 0x06E3: true, 0x08CF: true, 0x08D3: true}
@@ -436,6 +449,20 @@ func triage(fe *fontEntry, c *Case, got portResult, want refResult) class {
 	// exists (y origin differs by hundreds of units).
 	if vertical && coordsSet(got) && fe.traits.Glyf && !fe.traits.Vertical && !f.hasVORG && ev.Known(fVOrigin) {
 		add(fVOrigin, fOffset)
+	}
+	// skew: PairPos format 2 whose second glyph has class 0: the port (like the upstream it was
+	// ported from: "if (!klass2) { unsafe_to_concat; return false }") does not consume the pair;
+	// libharfbuzz 6.0.0 applies the (zero) record and moves past the second glyph, so a skipped
+	// glyph in between never becomes the first glyph of a pair. Visible only when a default
+	// ignorable keeps its advance (PRESERVE_DEFAULT_IGNORABLES): U+0175 U+00AD U+0396 with
+	// SourceSansPro-Regular.otf kerns the soft hyphen (291) or not (311).
+	if c.Flags&4 != 0 && len(fe.face.GPOS.Lookups) > 0 {
+		for _, r := range c.item() {
+			if defaultIgnorable(r) {
+				add(sPairClass0, fAdvance|fOffset)
+				break
+			}
+		}
 	}
 	// finding: VORG vertical origins of a variable font are not varied (VVAR vertical-origin
 	// delta-set mapping is not read).
